@@ -147,7 +147,7 @@ func (st *PrefixStorage) Put(key, b []byte, opt *leveldbOpt.WriteOptions) error 
 		return storage.ErrClosed.WithStack()
 	}
 
-	return st.Storage.Put(st.key(key), b, opt)
+	return st.Storage.Put(k, b, opt)
 }
 
 func (st *PrefixStorage) Delete(key []byte, opt *leveldbOpt.WriteOptions) error {
@@ -156,7 +156,7 @@ func (st *PrefixStorage) Delete(key []byte, opt *leveldbOpt.WriteOptions) error 
 		return storage.ErrClosed.WithStack()
 	}
 
-	return st.Storage.Delete(st.key(key), opt)
+	return st.Storage.Delete(k, opt)
 }
 
 func (st *PrefixStorage) NewBatch() *PrefixStorageBatch {
